@@ -11,14 +11,15 @@ Tolerances (all derived here, see ``tol_pos``):
 * integrator tolerance.  ``Dynamics.RELATIVE_TOL = 1e-10`` accepts a step whose scaled error is <= 1, i.e. a local
   position error of about ``eps_loc = rtol * |r|`` (7e-7 km in LEO).  A local position error changes the semi-major
   axis and is amplified along-track by 6*pi per revolution, so the global error grows quadratically with the number
-  of revolutions: ``E(T) ~ eps_loc * (c0 + c2 * revs^2)``.  Measured on the current tree over the whole thorough
-  lattice (both integrators): E <= eps_loc * (2 + 20 revs^2) (worst: 8.9e-4 km after one LEO day, 2.8e-6 km after an
-  hour; a-priori bound n_steps * sqrt(6) * eps_loc * (1 + 6 pi revs) is ~1 km for a LEO day).  The tolerance is
-  ``1e-9 + 30 * eps_loc * (1 + 20 revs^2)`` km: >= 30x the measured envelope, >= 10x below the a-priori bound, and
-  >= 100x below the smallest layout / restart / epoch defect seeded during development (which are km-level; the
-  smallest, a 1 s epoch slip under SP, is caught by the much tighter epoch-shift oracle below).  Two results that
-  are each within E of the truth differ by <= 2E, still 15x inside the tolerance.  Velocity tolerance = position
-  tolerance * perigee angular rate (+1e-12 km/s).
+  of revolutions: ``E(T) ~ eps_loc * (c0 + c2 * revs^2)``.  Measured on the current tree (both integrators, Kepler
+  reference): worst 8.9e-4 km after one LEO day (15.5 revs), 2.8e-6 km after a LEO hour; the a-priori bound
+  n_steps * sqrt(6) * eps_loc * (1 + 6 pi revs) is ~1 km for a LEO day.  The tolerance is
+  ``1e-9 + 30 * eps_loc * (1 + 20 revs^2)`` km (0.1 km for a LEO day, 2e-4 km for a LEO hour): the worst measured
+  error/tolerance ratio over the thorough lattice and VERIF_SEED in {0,1,2,7,12345} is 0.073 (>= 13x margin; the
+  evidence file reports the ratio of every run), >= 10x below the a-priori bound, and >= 100x below the layout /
+  restart / epoch defects seeded during development (km-level; the smallest, an epoch that ignores the elapsed time
+  under SP, is 4e-2 km per 1000 s of shift and LEO hour).  Two results that are each within E of the truth differ
+  by <= 2E.  Velocity tolerance = position tolerance * perigee angular rate (+1e-12 km/s).
 * ``solveKeplerProblemUniversal`` stops when the universal anomaly moves by < ``_ATOL`` = 1.48e-8 sqrt(km) and evaluates
   f, g with the new chi but the Stumpff terms of the previous iterate; the resulting position error is bounded by
   _ATOL * (sqrt(2 r) + sqrt(a) + 2 a v0 / sqrt(mu)) (derivation in ``_tol_universal``; measured worst 0.5 of that bound
